@@ -20,8 +20,10 @@ struct LeakGuard { size_t before; const char* what; LeakGuard(const char* w) : b
 struct RCookie { const unsigned char* d; size_t len, pos, fail_at; };   // read error when pos reaches fail_at (SIZE_MAX: never)
 static ssize_t rc_read(void* c, char* buf, size_t n) { RCookie* r = (RCookie*)c; if (r->pos >= r->fail_at) { errno = EIO; return -1; } size_t lim = std::min(r->len, r->fail_at); size_t k = std::min(n, lim - r->pos); memcpy(buf, r->d + r->pos, k); r->pos += k; if (k == 0 && r->pos >= r->fail_at) { errno = EIO; return -1; } return (ssize_t)k; }
 static FILE* open_reader(RCookie* c) { cookie_io_functions_t f = {rc_read, nullptr, nullptr, nullptr}; FILE* fp = fopencookie(c, "r", f); setvbuf(fp, nullptr, _IONBF, 0); return fp; }
-struct WCookie { std::string got; size_t fail_at; };                     // writes fail once fail_at bytes were accepted
-static ssize_t wc_write(void* c, const char* buf, size_t n) { WCookie* w = (WCookie*)c; if (w->got.size() >= w->fail_at) { errno = ENOSPC; return 0; } size_t k = std::min(n, w->fail_at - w->got.size()); w->got.append(buf, k); if (k < n) errno = ENOSPC; return (ssize_t)k; }
+struct WCookie { std::string got; size_t fail_at; bool transient = false, failed = false; };   // writes fail once fail_at bytes were accepted; transient: only the write call that reaches fail_at fails, later calls succeed again
+static ssize_t wc_write(void* c, const char* buf, size_t n) { WCookie* w = (WCookie*)c;
+  if (w->transient) { if (w->failed || w->got.size() + n <= w->fail_at) { w->got.append(buf, n); return (ssize_t)n; } size_t k = w->fail_at - w->got.size(); w->got.append(buf, k); w->failed = true; errno = EIO; return (ssize_t)k; }
+  if (w->got.size() >= w->fail_at) { errno = ENOSPC; return 0; } size_t k = std::min(n, w->fail_at - w->got.size()); w->got.append(buf, k); if (k < n) errno = ENOSPC; return (ssize_t)k; }
 static FILE* open_writer(WCookie* c) { cookie_io_functions_t f = {nullptr, wc_write, nullptr, nullptr}; FILE* fp = fopencookie(c, "w", f); setvbuf(fp, nullptr, _IONBF, 0); return fp; }
 
 // ---- models ----------------------------------------------------------------------------------
@@ -161,8 +163,9 @@ static void case_write_faults(ByteSource& in, CaseInfo& ci) {
   unsigned fmtk = (unsigned)in.range(0, 6);   // gmp_fprintf: formats that end inside an MPIR conversion or its padding, so that the failing write is made by the library itself
   auto call = [&](FILE* fp) -> long { switch (f) { case 0: return (long)mpz_out_raw(fp, z); case 1: return (long)mpz_out_str(fp, base, z); case 2: return (long)mpq_out_str(fp, base, q); case 3: return (long)mpf_out_str(fp, base, 0, x); default: switch (fmtk) { case 0: return (long)gmp_fprintf(fp, "v=%Zd q=%Qx f=%.5Ff|", z.z, q, x); case 1: return (long)gmp_fprintf(fp, "%Zd", z.z); case 2: return (long)gmp_fprintf(fp, "%-50Zd", z.z); case 3: return (long)gmp_fprintf(fp, "%Qd", q); case 4: return (long)gmp_fprintf(fp, "%60Zx", z.z); case 5: return (long)gmp_fprintf(fp, "%.5Ff", x); default: return (long)gmp_fprintf(fp, "x=%300Zd", z.z); } } };
   WCookie full{std::string(), (size_t)-1}; FILE* fp0 = open_writer(&full); long n0 = call(fp0); fclose(fp0); size_t len = full.got.size(); bool ok0 = n0 == (long)len && len > 0; uint64_t faults = 0; std::string bad;
-  for (size_t k = 0; k < len && bad.empty(); k++) { LeakGuard lg(names[f]); WCookie wc{std::string(), k}; FILE* fp = open_writer(&wc); long n = call(fp); fclose(fp); faults++;
-    long expect = f == 4 ? -1 : 0; if (n != expect) bad = "write failing at byte " + std::to_string(k) + " of " + std::to_string(len) + ": returned " + std::to_string(n) + ", expected " + std::to_string(expect);
+  // two fault sequences per byte position: every write from byte k on fails (device full), and only the write that reaches byte k fails (transient error; what follows is accepted again)
+  for (size_t kk = 0; kk < 2 * len && bad.empty(); kk++) { size_t k = kk / 2; bool tr = kk & 1; LeakGuard lg(names[f]); WCookie wc{std::string(), k}; wc.transient = tr; FILE* fp = open_writer(&wc); long n = call(fp); fclose(fp); faults++;
+    long expect = f == 4 ? -1 : 0; if (n != expect) bad = std::string(tr ? "one write failing (transient) at byte " : "write failing at byte ") + std::to_string(k) + " of " + std::to_string(len) + ": returned " + std::to_string(n) + ", expected " + std::to_string(expect);
     if (bad.empty() && !g_alloc_err.empty()) bad = g_alloc_err; if (bad.empty() && g_live->size() != lg.before) bad = "leak after a failed write at byte " + std::to_string(k); }
   mpq_clear(q); mpf_clear(x); ci.mixin_count = faults;
   REQUIRE(ok0, "%s: fault-free run returned %ld but wrote %zu bytes", names[f], n0, len); REQUIRE(bad.empty(), "%s: %s", names[f], bad.c_str());
